@@ -175,6 +175,19 @@ func (tb *termBuilder) of(v ssa.Value) *Term {
 	case *ssa.ChangeType:
 		return tb.of(x.X)
 	case *ssa.BinOp:
+		// unsigned division / remainder by a power of two are shifts / masks
+		if (x.Op == token.QUO || x.Op == token.REM) && isUnsigned(x.X.Type()) {
+			if c, ok := constUint(x.Y); ok && c > 0 && c&(c-1) == 0 {
+				k := uint64(0)
+				for (uint64(1) << k) < c {
+					k++
+				}
+				if x.Op == token.QUO {
+					return mk(">>", tb.of(x.X), tConst(k))
+				}
+				return mk("&", tb.of(x.X), tConst(c-1))
+			}
+		}
 		return mk(x.Op.String(), tb.of(x.X), tb.of(x.Y))
 	case *ssa.UnOp:
 		if x.Op == token.MUL {
@@ -230,6 +243,11 @@ func (tb *termBuilder) addr(a ssa.Value) *Term {
 		return tVar("global:" + x.Name())
 	}
 	return mk("load", tb.of(a))
+}
+
+func isUnsigned(t types.Type) bool {
+	b, ok := t.Underlying().(*types.Basic)
+	return ok && b.Info()&types.IsUnsigned != 0
 }
 
 func isIntegral(t types.Type) bool {
